@@ -19,6 +19,8 @@ def main():
         if a[i] == "--props": props = a[i+1].split(",")
         i += 2
     patch = os.path.join(src, f"patch{x}.diff")
+    if not os.path.exists(patch):
+        patch = os.path.join(src, "patch.diff")
     demo = os.path.join(src, f"demo{x}_test.go")
     if not os.path.exists(demo):
         cands = [f for f in os.listdir(src) if f.startswith(f"demo{x}")]
